@@ -204,7 +204,7 @@ Definition new_entry (key : bytes) (o : wopts) (now : N) : option meta :=
   end.
 
 Definition wf_sri_opt (o : wopts) : Prop :=
-  forall i, o_sri o = Some i -> parse_sri (sri_text i) = Some i.
+  forall i, o_sri o = Some i -> parse_entry_sri (sri_text i) = Some i.
 
 Lemma find_step_new key o now acc :
   wf_sri_opt o -> find_step key acc (smeta_of key o now) = new_entry key o now.
